@@ -1,8 +1,1020 @@
-//! Family "bitfield" (stub: not implemented yet).
-use crate::Ctx;
-use serde_json::Value;
+//! Family "bitfield": `BitFieldVec<W, Vec<W>>`, `BitFieldVec<W, Box<[W]>>`,
+//! `BitFieldVec<W, &[W]>` (ε-copy / mmap loaded), `AtomicBitFieldVec<W, _>`
+//! for W in u8 u16 u32 u64 u128 usize, driven by an operation script
+//! (properties C05, C10, C14 and the family's part of C11, C12, C15).
+//!
+//! The episode field `wt` selects the word type. After every operation the
+//! event carries `form`, `width`, `len`, `nw` (backend words) and `store`
+//! (positions of all set bits of the backend: bit b of word k is k*W+b,
+//! including the bits beyond len*width), obtained through `as_slice()`.
+//! Values are lists of set-bit positions (u128 does not fit a TLC integer).
+//!
+//! Nothing is judged here. The only computations besides calling sux are
+//! (a) building operands described by the script and (b) the guards of
+//! methods documented as unchecked, which are called only inside their
+//! preconditions (the event is `out:"na"` otherwise and the specification
+//! must agree that the precondition does not hold).
 
-pub fn run(_ep: &Value, _ctx: &mut Ctx) {
-    eprintln!("family bitfield not implemented");
-    std::process::exit(2);
+use crate::util::*;
+use crate::{guard, Ctx};
+use epserde::deser::{DeserType, Deserialize, Flags, MemCase};
+use epserde::ser::Serialize;
+use epserde::utils::AlignedCursor;
+use mem_dbg::{MemSize, SizeFlags};
+use serde_json::{json, Value};
+use std::sync::atomic::Ordering;
+use sux::bits::{AtomicBitFieldVec, BitFieldVec};
+use sux::traits::bit_field_slice::{AtomicBitFieldSlice, BitFieldSlice, BitFieldSliceCore, BitFieldSliceMut};
+use sux::traits::{IntoIteratorFrom, IntoReverseUncheckedIterator, IntoUncheckedIterator, UncheckedIterator};
+
+fn merge(mut a: Value, b: Value) -> Value {
+    if let (Value::Object(x), Value::Object(y)) = (&mut a, b) {
+        for (k, v) in y {
+            x.insert(k, v);
+        }
+    }
+    a
+}
+
+fn opt_usize(v: &Value, k: &str) -> Option<usize> {
+    v.get(k).and_then(|x| x.as_u64()).map(|x| x as usize)
+}
+
+fn na<T>() -> Result<T, String> {
+    Err("na".to_string())
+}
+
+// ---------------------------------------------------------------------------
+// atomic forms: real implementation for word types that have an atomic twin,
+// stub (every operation "na") for u128
+// ---------------------------------------------------------------------------
+macro_rules! bf_atomic_real {
+    () => {
+        pub type AV = AtomicBitFieldVec<Wd, Vec<A>>;
+        pub type AB = AtomicBitFieldVec<Wd, Box<[A]>>;
+        pub const HAS: bool = true;
+
+        fn aw(a: &[A]) -> Vec<Wd> {
+            a.iter().map(|x| x.load(Ordering::SeqCst)).collect()
+        }
+        pub fn words_v(a: &AV) -> Vec<Wd> {
+            aw(a.as_slice())
+        }
+        pub fn words_b(a: &AB) -> Vec<Wd> {
+            aw(a.as_slice())
+        }
+        pub fn shape_v(a: &AV) -> (usize, usize) {
+            (BitFieldSliceCore::<A>::bit_width(a), BitFieldSliceCore::<A>::len(a))
+        }
+        pub fn shape_b(a: &AB) -> (usize, usize) {
+            (BitFieldSliceCore::<A>::bit_width(a), BitFieldSliceCore::<A>::len(a))
+        }
+        pub fn new(width: usize, n: usize) -> Option<AV> {
+            Some(AV::new(width, n))
+        }
+        pub fn raw(words: Vec<Wd>, width: usize, len: usize) -> Option<AV> {
+            let a: Vec<A> = words.into_iter().map(A::new).collect();
+            Some(unsafe { AV::from_raw_parts(a, width, len) })
+        }
+        pub fn from_vec(b: BitFieldVec<Wd, Vec<Wd>>) -> Result<AV, BitFieldVec<Wd, Vec<Wd>>> {
+            Ok(b.into())
+        }
+        pub fn from_boxed(b: BitFieldVec<Wd, Box<[Wd]>>) -> Result<AB, BitFieldVec<Wd, Box<[Wd]>>> {
+            Ok(b.into())
+        }
+        pub fn to_vec(a: AV) -> BitFieldVec<Wd, Vec<Wd>> {
+            a.into()
+        }
+        pub fn to_boxed(a: AB) -> BitFieldVec<Wd, Box<[Wd]>> {
+            a.into()
+        }
+        /// into_raw_parts followed by from_raw_parts
+        pub fn roundtrip_v(a: AV) -> AV {
+            let (b, w, l) = a.into_raw_parts();
+            unsafe { AV::from_raw_parts(b, w, l) }
+        }
+
+        pub fn op<T: AsRef<[A]>>(
+            a: &mut AtomicBitFieldVec<Wd, T>,
+            name: &str,
+            op: &Value,
+        ) -> Option<Result<Value, String>> {
+            let len = BitFieldSliceCore::<A>::len(a);
+            let r = match name {
+                "a_get" => guard(|| a.get_atomic(get_usize(op, "i"), Ordering::Relaxed)).map(|r| json!({"res": vj(r)})),
+                "a_get_unchecked" => {
+                    let i = get_usize(op, "i");
+                    if i >= len {
+                        na()
+                    } else {
+                        guard(|| unsafe { a.get_atomic_unchecked(i, Ordering::Relaxed) }).map(|r| json!({"res": vj(r)}))
+                    }
+                }
+                "a_set" => guard(|| a.set_atomic(get_usize(op, "i"), val(&op["v"]), Ordering::Relaxed)).map(|_| json!({})),
+                "a_set_unchecked" => {
+                    let i = get_usize(op, "i");
+                    let v = val(&op["v"]);
+                    if i >= len || v & a.mask() != v {
+                        na()
+                    } else {
+                        guard(|| unsafe { a.set_atomic_unchecked(i, v, Ordering::Relaxed) }).map(|_| json!({}))
+                    }
+                }
+                "a_reset" => guard(|| a.reset_atomic(Ordering::Relaxed)).map(|_| json!({})),
+                "a_par_reset" => guard(|| a.par_reset_atomic(Ordering::Relaxed)).map(|_| json!({})),
+                #[allow(deprecated)]
+                "a_reset_dep" => guard(|| a.reset(Ordering::Relaxed)).map(|_| json!({})),
+                "a_len" => guard(|| BitFieldSliceCore::<A>::len(a)).map(|r| json!({"res": r})),
+                "a_bit_width" => guard(|| BitFieldSliceCore::<A>::bit_width(a)).map(|r| json!({"res": r})),
+                "a_mask" => guard(|| a.mask()).map(|r| json!({"res": vj(r)})),
+                "a_all" => guard(|| (0..len).map(|i| vj(a.get_atomic(i, Ordering::SeqCst))).collect::<Vec<_>>())
+                    .map(|r| json!({"res": r})),
+                _ => return None,
+            };
+            Some(r)
+        }
+        pub fn op_v(a: &mut AV, name: &str, o: &Value) -> Option<Result<Value, String>> {
+            op(a, name, o)
+        }
+        pub fn op_b(a: &mut AB, name: &str, o: &Value) -> Option<Result<Value, String>> {
+            op(a, name, o)
+        }
+
+        /// the blanket AtomicBitFieldSlice implementation for vectors of atomic words
+        pub fn plain_atomic(k: &str, v: &mut Vec<Wd>, a: &Value) -> Result<Value, String> {
+            let mut av: Vec<A> = v.iter().map(|&x| A::new(x)).collect();
+            let r = match k {
+                "a_get" => guard(|| AtomicBitFieldSlice::<Wd>::get_atomic(&av, get_usize(a, "i"), Ordering::Relaxed))
+                    .map(|x| json!({"v": vj(x)})),
+                "a_set" => guard(|| AtomicBitFieldSlice::<Wd>::set_atomic(&av, get_usize(a, "i"), val(&a["v"]), Ordering::Relaxed))
+                    .map(|_| json!({})),
+                "a_reset" => guard(|| AtomicBitFieldSlice::<Wd>::reset_atomic(&mut av, Ordering::Relaxed)).map(|_| json!({})),
+                "a_par_reset" => {
+                    guard(|| AtomicBitFieldSlice::<Wd>::par_reset_atomic(&mut av, Ordering::Relaxed)).map(|_| json!({}))
+                }
+                "a_len" => guard(|| BitFieldSliceCore::<A>::len(&av)).map(|x| json!({"n": x})),
+                _ => guard(|| BitFieldSliceCore::<A>::bit_width(&av)).map(|x| json!({"n": x})),
+            };
+            *v = av.iter().map(|x| x.load(Ordering::SeqCst)).collect();
+            r
+        }
+
+        /// conversions between the slice-backed forms: &[W] -> &[A] -> &[W]
+        pub fn view_get(words: &[Wd], width: usize, len: usize, i: usize) -> Result<Value, String> {
+            guard(|| {
+                let v: BitFieldVec<Wd, &[Wd]> = unsafe { BitFieldVec::from_raw_parts(words, width, len) };
+                let a: AtomicBitFieldVec<Wd, &[A]> = v.into();
+                let x = a.get_atomic(i, Ordering::Relaxed);
+                let back: BitFieldVec<Wd, &[Wd]> = a.into();
+                let y = back.get(i);
+                json!({"res": [vj(x), vj(y)]})
+            })
+        }
+        pub fn view_set(words: &mut [Wd], width: usize, len: usize, i: usize, x: Wd) -> Result<Value, String> {
+            guard(|| {
+                let v: BitFieldVec<Wd, &mut [Wd]> = unsafe { BitFieldVec::from_raw_parts(words, width, len) };
+                let a: AtomicBitFieldVec<Wd, &mut [A]> = v.into();
+                a.set_atomic(i, x, Ordering::Relaxed);
+                let mut back: BitFieldVec<Wd, &mut [Wd]> = a.into();
+                // a second write through the converted-back view, same value
+                back.set(i, x);
+                json!({})
+            })
+        }
+    };
+}
+
+macro_rules! bf_atomic_stub {
+    () => {
+        pub enum AV {}
+        pub enum AB {}
+        pub const HAS: bool = false;
+        pub fn words_v(a: &AV) -> Vec<Wd> {
+            match *a {}
+        }
+        pub fn words_b(a: &AB) -> Vec<Wd> {
+            match *a {}
+        }
+        pub fn shape_v(a: &AV) -> (usize, usize) {
+            match *a {}
+        }
+        pub fn shape_b(a: &AB) -> (usize, usize) {
+            match *a {}
+        }
+        pub fn new(_width: usize, _n: usize) -> Option<AV> {
+            None
+        }
+        pub fn raw(_words: Vec<Wd>, _width: usize, _len: usize) -> Option<AV> {
+            None
+        }
+        pub fn from_vec(b: BitFieldVec<Wd, Vec<Wd>>) -> Result<AV, BitFieldVec<Wd, Vec<Wd>>> {
+            Err(b)
+        }
+        pub fn from_boxed(b: BitFieldVec<Wd, Box<[Wd]>>) -> Result<AB, BitFieldVec<Wd, Box<[Wd]>>> {
+            Err(b)
+        }
+        pub fn to_vec(a: AV) -> BitFieldVec<Wd, Vec<Wd>> {
+            match a {}
+        }
+        pub fn to_boxed(a: AB) -> BitFieldVec<Wd, Box<[Wd]>> {
+            match a {}
+        }
+        pub fn roundtrip_v(a: AV) -> AV {
+            match a {}
+        }
+        pub fn op_v(a: &mut AV, _name: &str, _o: &Value) -> Option<Result<Value, String>> {
+            match *a {}
+        }
+        pub fn op_b(a: &mut AB, _name: &str, _o: &Value) -> Option<Result<Value, String>> {
+            match *a {}
+        }
+        pub fn plain_atomic(_k: &str, _v: &mut Vec<Wd>, _a: &Value) -> Result<Value, String> {
+            na()
+        }
+        pub fn view_get(_w: &[Wd], _width: usize, _len: usize, _i: usize) -> Result<Value, String> {
+            na()
+        }
+        pub fn view_set(_w: &mut [Wd], _width: usize, _len: usize, _i: usize, _x: Wd) -> Result<Value, String> {
+            na()
+        }
+    };
+}
+
+// ---------------------------------------------------------------------------
+// everything else, written once against the alias `Wd`
+// ---------------------------------------------------------------------------
+macro_rules! bf_common {
+    () => {
+        pub const BITS: usize = Wd::BITS as usize;
+        type BV = BitFieldVec<Wd, Vec<Wd>>;
+        type BB = BitFieldVec<Wd, Box<[Wd]>>;
+        type BR = DeserType<'static, BV>;
+
+        pub fn val(v: &Value) -> Wd {
+            u128_of_bits(v) as Wd
+        }
+        pub fn vj(x: Wd) -> Value {
+            json!(bits_of_u128(x as u128))
+        }
+        fn vals(v: &Value) -> Vec<Wd> {
+            v.as_array().map(|a| a.iter().map(val).collect()).unwrap_or_default()
+        }
+        fn pos(words: &[Wd]) -> Vec<usize> {
+            let mut v = Vec::new();
+            for (k, &w) in words.iter().enumerate() {
+                for b in bits_of_u128(w as u128) {
+                    v.push(k * BITS + b as usize);
+                }
+            }
+            v
+        }
+        fn words(p: &Value, nw: usize) -> Vec<Wd> {
+            let mut w: Vec<Wd> = vec![0; nw];
+            if let Some(a) = p.as_array() {
+                for x in a {
+                    let x = x.as_u64().unwrap() as usize;
+                    w[x / BITS] |= (1 as Wd) << (x % BITS);
+                }
+            }
+            w
+        }
+
+        enum S {
+            None,
+            Vec(BV),
+            Boxed(BB),
+            /// ε-copy deserialized from a leaked aligned buffer
+            Eps(BR),
+            /// memory-mapped
+            Map(MemCase<BR>, Option<tempfile::NamedTempFile>),
+            AVec(at::AV),
+            ABox(at::AB),
+        }
+
+        impl S {
+            fn proj(&self) -> Value {
+                fn pr<B: AsRef<[Wd]>>(f: &str, b: &BitFieldVec<Wd, B>) -> Value {
+                    let w = b.as_slice();
+                    json!({"form": f, "width": BitFieldSliceCore::<Wd>::bit_width(b),
+                           "len": BitFieldSliceCore::<Wd>::len(b), "nw": w.len(), "store": pos(w)})
+                }
+                match self {
+                    S::None => json!({"form": "none", "width": 0, "len": 0, "nw": 0, "store": []}),
+                    S::Vec(b) => pr("vec", b),
+                    S::Boxed(b) => pr("boxed", b),
+                    S::Eps(b) => pr("eps", b),
+                    S::Map(b, _) => pr("mmap", &**b),
+                    S::AVec(a) => {
+                        let w = at::words_v(a);
+                        let (bw, l) = at::shape_v(a);
+                        json!({"form": "atomic", "width": bw, "len": l, "nw": w.len(), "store": pos(&w)})
+                    }
+                    S::ABox(a) => {
+                        let w = at::words_b(a);
+                        let (bw, l) = at::shape_b(a);
+                        json!({"form": "atomic_boxed", "width": bw, "len": l, "nw": w.len(), "store": pos(&w)})
+                    }
+                }
+            }
+        }
+
+        /// the operand of eq / copy: a vector over caller-described storage
+        fn other_vec(op: &Value, width: usize) -> Option<BV> {
+            let onw = get_usize(op, "onw");
+            let olen = get_usize(op, "olen");
+            if olen.checked_mul(width)? > onw * BITS {
+                return None;
+            }
+            Some(unsafe { BV::from_raw_parts(words(&op["ostore"], onw), width, olen) })
+        }
+
+        fn eq3<B: AsRef<[Wd]>>(b: &BitFieldVec<Wd, B>, o: &BV) -> Value {
+            let (w, bw, l) = o.clone().into_raw_parts();
+            let ob: BB = unsafe { BB::from_raw_parts(w.into_boxed_slice(), bw, l) };
+            json!([*b == *o, *o == *b, *b == ob])
+        }
+
+        /// operations available on every non-atomic form (shared reference)
+        fn read_op<B: AsRef<[Wd]>>(b: &BitFieldVec<Wd, B>, name: &str, op: &Value) -> Option<Result<Value, String>>
+        where
+            BitFieldVec<Wd, B>: MemSize,
+        {
+            let len = BitFieldSliceCore::<Wd>::len(b);
+            let width = BitFieldSliceCore::<Wd>::bit_width(b);
+            let r = match name {
+                "get" => guard(|| b.get(get_usize(op, "i"))).map(|r| json!({"res": vj(r)})),
+                "get_unchecked" => {
+                    let i = get_usize(op, "i");
+                    if i >= len {
+                        na()
+                    } else {
+                        guard(|| unsafe { b.get_unchecked(i) }).map(|r| json!({"res": vj(r)}))
+                    }
+                }
+                "len" => guard(|| BitFieldSliceCore::<Wd>::len(b)).map(|r| json!({"res": r})),
+                "is_empty" => guard(|| BitFieldSliceCore::<Wd>::is_empty(b)).map(|r| json!({"res": r})),
+                "bit_width" => guard(|| BitFieldSliceCore::<Wd>::bit_width(b)).map(|r| json!({"res": r})),
+                "iter" => guard(|| b.iter().map(vj).collect::<Vec<_>>()).map(|r| json!({"res": r})),
+                "iter_from" => {
+                    guard(|| b.iter_from(get_usize(op, "from")).map(vj).collect::<Vec<_>>()).map(|r| json!({"res": r}))
+                }
+                "into_iter" => guard(|| b.into_iter().map(vj).collect::<Vec<_>>()).map(|r| json!({"res": r})),
+                "into_iter_from" => guard(|| b.into_iter_from(get_usize(op, "from")).map(vj).collect::<Vec<_>>())
+                    .map(|r| json!({"res": r})),
+                // the generic iterator of the traits module, over the same vector
+                "slice_iter" => guard(|| {
+                    sux::traits::BitFieldSliceIterator::<Wd, BitFieldVec<Wd, B>>::new(b, get_usize(op, "from"))
+                        .map(vj)
+                        .collect::<Vec<_>>()
+                })
+                .map(|r| json!({"res": r})),
+                "iter_len" => guard(|| {
+                    let mut it = b.iter_from(get_usize(op, "from"));
+                    let mut got = 0usize;
+                    for _ in 0..get_usize(op, "k") {
+                        if it.next().is_some() {
+                            got += 1;
+                        }
+                    }
+                    let (lo, hi) = it.size_hint();
+                    json!([got, it.len(), lo, opt(hi)])
+                })
+                .map(|r| json!({"res": r})),
+                "uiter" => {
+                    let from = opt_usize(op, "from");
+                    let n = get_usize(op, "n");
+                    let f = from.unwrap_or(0);
+                    if f <= len && n > len - f {
+                        na()
+                    } else {
+                        guard(|| {
+                            let mut it = match from {
+                                Some(f) => b.into_unchecked_iter_from(f),
+                                None => b.into_unchecked_iter(),
+                            };
+                            (0..n).map(|_| vj(unsafe { it.next_unchecked() })).collect::<Vec<_>>()
+                        })
+                        .map(|r| json!({"res": r}))
+                    }
+                }
+                "ruiter" => {
+                    let from = opt_usize(op, "from");
+                    let n = get_usize(op, "n");
+                    let f = from.unwrap_or(len);
+                    if f <= len && n > f {
+                        na()
+                    } else {
+                        guard(|| {
+                            let mut it = match from {
+                                Some(f) => b.into_rev_unchecked_iter_from(f),
+                                None => b.into_rev_unchecked_iter(),
+                            };
+                            (0..n).map(|_| vj(unsafe { it.next_unchecked() })).collect::<Vec<_>>()
+                        })
+                        .map(|r| json!({"res": r}))
+                    }
+                }
+                "eq_other" => match other_vec(op, get_usize(op, "owidth")) {
+                    None => na(),
+                    Some(o) => guard(|| eq3(b, &o)).map(|r| json!({"res": r})),
+                },
+                "eq_self" => {
+                    // the operand is derived from the current backend and written out
+                    // in the event, which is logged as an `eq_other`
+                    let mode = op["mode"].as_str().unwrap();
+                    let at = get_usize(op, "at");
+                    guard(|| {
+                        let mut w: Vec<Wd> = b.as_slice().to_vec();
+                        let mut olen = len;
+                        let mut owidth = width;
+                        match mode {
+                            "same" => {}
+                            "garbage" => {
+                                for p in len * width..w.len() * BITS {
+                                    w[p / BITS] ^= (1 as Wd) << (p % BITS);
+                                }
+                            }
+                            "flip_inside" => {
+                                if len * width > 0 {
+                                    let p = at % (len * width);
+                                    w[p / BITS] ^= (1 as Wd) << (p % BITS);
+                                }
+                            }
+                            "shorter" => olen = olen.saturating_sub(1),
+                            "longer" => {
+                                olen += 1;
+                                while olen * width > w.len() * BITS {
+                                    w.push(0);
+                                }
+                            }
+                            _ => {
+                                // same storage read with another width
+                                owidth = if width == BITS { width - 1 } else { width + 1 };
+                                while olen * owidth > w.len() * BITS {
+                                    w.push(0);
+                                }
+                            }
+                        }
+                        let o = unsafe { BV::from_raw_parts(w.clone(), owidth, olen) };
+                        json!({"op": "eq_other", "owidth": owidth, "olen": olen, "onw": w.len(),
+                               "ostore": pos(&w), "res": eq3(b, &o)})
+                    })
+                }
+                "addr_of" => guard(|| {
+                    let p = b.addr_of(get_usize(op, "i")) as usize;
+                    (p - b.as_slice().as_ptr() as usize) / std::mem::size_of::<Wd>()
+                })
+                .map(|r| json!({"res": r})),
+                "get_unaligned" => guard(|| b.get_unaligned(get_usize(op, "i"))).map(|r| json!({"res": vj(r)})),
+                "mem_size" => guard(|| b.mem_size(SizeFlags::default())).map(|r| json!({"res": r})),
+                "view_atomic_get" => at::view_get(b.as_slice(), width, len, get_usize(op, "i")),
+                _ => return None,
+            };
+            Some(r)
+        }
+
+        /// the function of apply_in_place described by the script:
+        /// f(x) = ((x op m) & mask), `xorprev` uses the previous argument as m
+        fn apply_fn(kind: &str, m: Wd, mask: Wd, x: Wd, prev: Wd) -> Wd {
+            (match kind {
+                "id" => x,
+                "not" => !x,
+                "xor" => x ^ m,
+                "and" => x & m,
+                "or" => x | m,
+                "const" => m,
+                "shl1" => x << 1,
+                "xorprev" => x ^ prev,
+                _ => panic!("unknown apply kind"),
+            }) & mask
+        }
+
+        /// operations of BitFieldSliceMut (Vec and Box backends)
+        fn write_op<B: AsRef<[Wd]> + AsMut<[Wd]>>(
+            b: &mut BitFieldVec<Wd, B>,
+            name: &str,
+            op: &Value,
+            mk: &dyn Fn(Vec<Wd>, usize, usize) -> BitFieldVec<Wd, B>,
+        ) -> Option<Result<Value, String>> {
+            let len = BitFieldSliceCore::<Wd>::len(b);
+            let width = BitFieldSliceCore::<Wd>::bit_width(b);
+            let r = match name {
+                "set" => guard(|| b.set(get_usize(op, "i"), val(&op["v"]))).map(|_| json!({})),
+                "set_unchecked" => {
+                    let i = get_usize(op, "i");
+                    let v = val(&op["v"]);
+                    if i >= len || v & BitFieldSliceMut::mask(b) != v {
+                        na()
+                    } else {
+                        guard(|| unsafe { b.set_unchecked(i, v) }).map(|_| json!({}))
+                    }
+                }
+                "mask" => guard(|| BitFieldSliceMut::mask(b)).map(|r| json!({"res": vj(r)})),
+                "reset" => guard(|| b.reset()).map(|_| json!({})),
+                "par_reset" => guard(|| b.par_reset()).map(|_| json!({})),
+                "apply" | "apply_unchecked" => {
+                    let kind = op["kind"].as_str().unwrap().to_string();
+                    let m = val(&op["m"]);
+                    let mask = BitFieldSliceMut::mask(b);
+                    let mut calls: Vec<Wd> = Vec::new();
+                    let cap = 4 * len + 64;
+                    let mut prev: Wd = 0;
+                    let r = guard(|| {
+                        let f = |x: Wd| {
+                            if calls.len() >= cap {
+                                panic!("recording closure called more than 4*len+64 times");
+                            }
+                            calls.push(x);
+                            let y = apply_fn(&kind, m, mask, x, prev);
+                            prev = x;
+                            y
+                        };
+                        if name == "apply" {
+                            b.apply_in_place(f)
+                        } else {
+                            unsafe { b.apply_in_place_unchecked(f) }
+                        }
+                    });
+                    let c: Vec<Value> = calls.iter().map(|&x| vj(x)).collect();
+                    match r {
+                        Ok(_) => Ok(json!({"calls": c})),
+                        Err(msg) => {
+                            // the event still carries the calls seen so far
+                            return Some(Err(format!("{msg} calls={}", c.len())));
+                        }
+                    }
+                }
+                "copy_to" | "copy_from" => {
+                    let (from, to, n) = (get_usize(op, "from"), get_usize(op, "to"), get_usize(op, "n"));
+                    let onw = get_usize(op, "onw");
+                    let olen = get_usize(op, "olen");
+                    let fits = olen.checked_mul(width).map_or(false, |x| x <= onw * BITS);
+                    let (slen, dlen) = if name == "copy_to" { (len, olen) } else { (olen, len) };
+                    if !fits || from > slen || to > dlen {
+                        na()
+                    } else {
+                        let mut o = mk(words(&op["ostore"], onw), width, olen);
+                        if name == "copy_to" {
+                            guard(|| b.copy(from, &mut o, to, n)).map(|_| {
+                                json!({"res": {"olen": BitFieldSliceCore::<Wd>::len(&o), "onw": o.as_slice().len(),
+                                               "ostore": pos(o.as_slice())}})
+                            })
+                        } else {
+                            guard(|| o.copy(from, b, to, n)).map(|_| json!({}))
+                        }
+                    }
+                }
+                "chunks" => {
+                    let c = get_usize(op, "c");
+                    let acts = op["acts"].as_array().cloned().unwrap_or_default();
+                    guard(|| match b.try_chunks_mut(c) {
+                        Err(()) => json!({"res": {"ok": false, "lens": [], "acts": []}}),
+                        Ok(it) => {
+                            let mut views: Vec<_> = it.collect();
+                            let lens: Vec<usize> = views.iter().map(|v| BitFieldSliceCore::<Wd>::len(v)).collect();
+                            let mut out = Vec::new();
+                            for a in &acts {
+                                let (j, k) = (get_usize(a, "j"), get_usize(a, "k"));
+                                if j >= views.len() {
+                                    out.push(json!({"k": "nov", "v": []}));
+                                } else if a.get("v").is_some() {
+                                    let x = val(&a["v"]);
+                                    match guard(|| views[j].set(k, x)) {
+                                        Ok(_) => out.push(json!({"k": "w", "v": []})),
+                                        Err(_) => out.push(json!({"k": "p", "v": []})),
+                                    }
+                                } else {
+                                    match guard(|| views[j].get(k)) {
+                                        Ok(x) => out.push(json!({"k": "r", "v": vj(x)})),
+                                        Err(_) => out.push(json!({"k": "p", "v": []})),
+                                    }
+                                }
+                            }
+                            json!({"res": {"ok": true, "lens": lens, "acts": out}})
+                        }
+                    })
+                }
+                "view_atomic_set" => {
+                    at::view_set(b.as_mut_slice(), width, len, get_usize(op, "i"), val(&op["v"]))
+                }
+                _ => return None,
+            };
+            Some(r)
+        }
+
+        /// serialize `b`, load it back as a `T` in the requested way; `own` wraps a
+        /// fully deserialized instance
+        fn reload<X: Serialize, T>(b: &X, mode: &str, own: fn(T) -> S) -> Result<S, String>
+        where
+            T: Deserialize + epserde::deser::DeserializeInner<DeserType<'static> = BR>,
+        {
+            let r: anyhow::Result<S> = (|| {
+                Ok(match mode {
+                    "full" => {
+                        let mut c = <AlignedCursor>::new();
+                        b.serialize(&mut c)?;
+                        c.set_position(0);
+                        own(T::deserialize_full(&mut c)?)
+                    }
+                    "eps" => {
+                        let mut c = <AlignedCursor>::new();
+                        b.serialize(&mut c)?;
+                        // the loaded instance borrows the buffer: the buffer is leaked
+                        let c: &'static mut AlignedCursor = Box::leak(Box::new(c));
+                        let bytes: &'static [u8] = c.as_bytes();
+                        S::Eps(T::deserialize_eps(bytes)?)
+                    }
+                    _ => {
+                        let f = tempfile::NamedTempFile::new()?;
+                        b.store(f.path())?;
+                        match mode {
+                            "mmap" => S::Map(T::mmap(f.path(), Flags::empty())?, Some(f)),
+                            "load_mmap" => S::Map(T::load_mmap(f.path(), Flags::empty())?, None),
+                            "load_mem" => S::Map(T::load_mem(f.path())?, None),
+                            "load_full" => own(T::load_full(f.path())?),
+                            m => anyhow::bail!("unknown reload mode {m}"),
+                        }
+                    }
+                })
+            })();
+            r.map_err(|e| format!("reload error: {e}"))
+        }
+
+        /// The blanket implementations of the slice traits for plain vectors of words
+        /// (every element is a full-width field): a stateless operation over an operand
+        /// given by the script; one result per access, then the final contents.
+        fn plain(op: &Value) -> Value {
+            let mut v: Vec<Wd> = vals(&op["vals"]);
+            let mut out = Vec::new();
+            for a in op["acts"].as_array().unwrap() {
+                let k = a["k"].as_str().unwrap();
+                let r: Result<Value, String> = match k {
+                    "get" => guard(|| BitFieldSlice::<Wd>::get(&v, get_usize(a, "i"))).map(|x| json!({"v": vj(x)})),
+                    "set" => guard(|| BitFieldSliceMut::<Wd>::set(&mut v, get_usize(a, "i"), val(&a["v"]))).map(|_| json!({})),
+                    "reset" => guard(|| BitFieldSliceMut::<Wd>::reset(&mut v)).map(|_| json!({})),
+                    "par_reset" => guard(|| BitFieldSliceMut::<Wd>::par_reset(&mut v)).map(|_| json!({})),
+                    "len" => guard(|| BitFieldSliceCore::<Wd>::len(&v)).map(|x| json!({"n": x})),
+                    "bit_width" => guard(|| BitFieldSliceCore::<Wd>::bit_width(&v)).map(|x| json!({"n": x})),
+                    "copy" => {
+                        let mut d: Vec<Wd> = vals(&a["dst"]);
+                        let (from, to, n) = (get_usize(a, "from"), get_usize(a, "to"), get_usize(a, "n"));
+                        if from > v.len() || to > d.len() {
+                            na()
+                        } else {
+                            guard(|| BitFieldSliceMut::<Wd>::copy(&v, from, &mut d, to, n))
+                                .map(|_| json!({"vs": d.iter().map(|&x| vj(x)).collect::<Vec<_>>()}))
+                        }
+                    }
+                    "apply" => {
+                        let kind = a["kind"].as_str().unwrap().to_string();
+                        let m = val(&a["m"]);
+                        let mut calls: Vec<Wd> = Vec::new();
+                        let mut prev: Wd = 0;
+                        let cap = 4 * v.len() + 64;
+                        guard(|| {
+                            BitFieldSliceMut::<Wd>::apply_in_place(&mut v, |x| {
+                                if calls.len() >= cap {
+                                    panic!("too many calls");
+                                }
+                                calls.push(x);
+                                let y = apply_fn(&kind, m, Wd::MAX, x, prev);
+                                prev = x;
+                                y
+                            })
+                        })
+                        .map(|_| json!({"vs": calls.iter().map(|&x| vj(x)).collect::<Vec<_>>()}))
+                    }
+                    _ => at::plain_atomic(k, &mut v, a),
+                };
+                let base = json!({"k": "ok", "v": [], "vs": [], "n": 0});
+                out.push(match r {
+                    Ok(x) => merge(base, x),
+                    Err(m) if m == "na" => merge(base, json!({"k": "u"})),
+                    Err(_) => merge(base, json!({"k": "p"})),
+                });
+            }
+            json!({"res": {"acts": out, "fin": v.iter().map(|&x| vj(x)).collect::<Vec<_>>()}})
+        }
+
+        fn set_vec(s: &mut S, r: Result<BV, String>) -> Result<Value, String> {
+            r.map(|b| {
+                *s = S::Vec(b);
+                json!({})
+            })
+        }
+
+        pub fn run(ep: &Value, ctx: &mut Ctx) {
+            let mut s = S::None;
+            let wt = ep["wt"].as_str().unwrap_or("usize");
+            let hdr = json!({"op": "BEGIN", "fam": "bitfield", "wt": wt, "W": BITS, "hasatomic": at::HAS,
+                             "src": ep.get("src").cloned().unwrap_or(json!("?"))});
+            ctx.begin(&hdr);
+            ctx.emit(&hdr, "ret", s.proj());
+            for op in ep["ops"].as_array().unwrap() {
+                ctx.begin(op);
+                let name = op["op"].as_str().unwrap();
+                let r: Result<Value, String> = match name {
+                    // ------------------------------------------------ constructors
+                    "new" => set_vec(&mut s, guard(|| BV::new(get_usize(op, "width"), get_usize(op, "n")))),
+                    "new_unaligned" => {
+                        set_vec(&mut s, guard(|| BV::new_unaligned(get_usize(op, "width"), get_usize(op, "n"))))
+                    }
+                    "with_capacity" => {
+                        set_vec(&mut s, guard(|| BV::with_capacity(get_usize(op, "width"), get_usize(op, "c"))))
+                    }
+                    "raw" | "a_raw" => {
+                        let (width, rlen, rnw) = (get_usize(op, "width"), get_usize(op, "rlen"), get_usize(op, "rnw"));
+                        assert!(rlen * width <= rnw * BITS, "raw: script violates the safety contract");
+                        let w = words(&op["rstore"], rnw);
+                        if name == "raw" {
+                            set_vec(&mut s, guard(|| unsafe { BV::from_raw_parts(w, width, rlen) }))
+                        } else {
+                            match guard(|| at::raw(w, width, rlen)) {
+                                Ok(Some(a)) => {
+                                    s = S::AVec(a);
+                                    Ok(json!({}))
+                                }
+                                Ok(None) => na(),
+                                Err(m) => Err(m),
+                            }
+                        }
+                    }
+                    "a_new" => match guard(|| at::new(get_usize(op, "width"), get_usize(op, "n"))) {
+                        Ok(Some(a)) => {
+                            s = S::AVec(a);
+                            Ok(json!({}))
+                        }
+                        Ok(None) => na(),
+                        Err(m) => Err(m),
+                    },
+                    "from_slice" => {
+                        let v = &op["vals"];
+                        let r = guard(|| match op["via"].as_str().unwrap_or("plain") {
+                            "plain" => BV::from_slice(&vals(v)),
+                            "bfv" => {
+                                let mut src = BV::new(get_usize(op, "swidth"), 0);
+                                for x in vals(v) {
+                                    src.push(x);
+                                }
+                                BV::from_slice(&src)
+                            }
+                            _ => {
+                                let src: Vec<u128> = v.as_array().unwrap().iter().map(u128_of_bits).collect();
+                                BV::from_slice(&src)
+                            }
+                        });
+                        match r {
+                            Ok(Ok(b)) => {
+                                s = S::Vec(b);
+                                Ok(json!({"res": true}))
+                            }
+                            Ok(Err(_)) => Ok(json!({"res": false})),
+                            Err(m) => Err(m),
+                        }
+                    }
+                    "macro_empty" | "macro_rep" | "macro_list" => macros(op, &mut s),
+                    "plain" => guard(|| plain(op)),
+                    // ------------------------------------------------ growth (Vec backend only)
+                    "push" => match &mut s {
+                        S::Vec(b) => guard(|| b.push(val(&op["v"]))).map(|_| json!({})),
+                        _ => na(),
+                    },
+                    "pop" => match &mut s {
+                        S::Vec(b) => guard(|| b.pop()).map(|r| json!({"res": opt(r.map(vj))})),
+                        _ => na(),
+                    },
+                    "resize" => match &mut s {
+                        S::Vec(b) => guard(|| b.resize(get_usize(op, "n"), val(&op["v"]))).map(|_| json!({})),
+                        _ => na(),
+                    },
+                    "clear" => match &mut s {
+                        S::Vec(b) => guard(|| b.clear()).map(|_| json!({})),
+                        _ => na(),
+                    },
+                    "extend" => match &mut s {
+                        S::Vec(b) => guard(|| b.extend(vals(&op["vals"]))).map(|_| json!({})),
+                        _ => na(),
+                    },
+                    "bit_width_vec" => match &s {
+                        S::Vec(b) => guard(|| b.bit_width()).map(|r| json!({"res": r})),
+                        _ => na(),
+                    },
+                    "mask_vec" => match &s {
+                        S::Vec(b) => guard(|| b.mask()).map(|r| json!({"res": vj(r)})),
+                        _ => na(),
+                    },
+                    "clone" => match &s {
+                        S::Vec(b) => guard(|| {
+                            let o = b.clone();
+                            json!({"owidth": o.bit_width(), "olen": o.len(), "onw": o.as_slice().len(),
+                                   "ostore": pos(o.as_slice()), "eq": o == *b})
+                        })
+                        .map(|r| json!({"res": r})),
+                        S::Boxed(b) => guard(|| {
+                            let o = b.clone();
+                            json!({"owidth": BitFieldSliceCore::<Wd>::bit_width(&o), "olen": BitFieldSliceCore::<Wd>::len(&o),
+                                   "onw": o.as_slice().len(), "ostore": pos(o.as_slice()), "eq": o == *b})
+                        })
+                        .map(|r| json!({"res": r})),
+                        _ => na(),
+                    },
+                    "raw_roundtrip" => {
+                        let old = std::mem::replace(&mut s, S::None);
+                        match guard(move || match old {
+                            S::Vec(b) => {
+                                let (w, bw, l) = b.into_raw_parts();
+                                Ok(S::Vec(unsafe { BV::from_raw_parts(w, bw, l) }))
+                            }
+                            S::Boxed(b) => {
+                                let (w, bw, l) = b.into_raw_parts();
+                                Ok(S::Boxed(unsafe { BB::from_raw_parts(w, bw, l) }))
+                            }
+                            S::AVec(a) => Ok(S::AVec(at::roundtrip_v(a))),
+                            o => Err(o),
+                        }) {
+                            Ok(Ok(n)) => {
+                                s = n;
+                                Ok(json!({}))
+                            }
+                            Ok(Err(o)) => {
+                                s = o;
+                                na()
+                            }
+                            Err(m) => Err(m),
+                        }
+                    }
+                    // ------------------------------------------------ conversions
+                    "into" => {
+                        let to = op["to"].as_str().unwrap();
+                        let old = std::mem::replace(&mut s, S::None);
+                        let r = guard(|| match (old, to) {
+                            (S::Vec(b), "boxed") => Ok(S::Boxed(b.into())),
+                            (S::Boxed(b), "vec") => Ok(S::Vec(b.into())),
+                            (S::Vec(b), "atomic") => match at::from_vec(b) {
+                                Ok(a) => Ok(S::AVec(a)),
+                                Err(b) => Err(S::Vec(b)),
+                            },
+                            (S::Boxed(b), "atomic_boxed") => match at::from_boxed(b) {
+                                Ok(a) => Ok(S::ABox(a)),
+                                Err(b) => Err(S::Boxed(b)),
+                            },
+                            (S::AVec(a), "vec") => Ok(S::Vec(at::to_vec(a))),
+                            (S::ABox(a), "boxed") => Ok(S::Boxed(at::to_boxed(a))),
+                            (o, _) => Err(o),
+                        });
+                        match r {
+                            Ok(Ok(n)) => {
+                                s = n;
+                                Ok(json!({}))
+                            }
+                            Ok(Err(o)) => {
+                                s = o;
+                                na()
+                            }
+                            Err(m) => Err(m),
+                        }
+                    }
+                    "reload" => {
+                        let mode = op["mode"].as_str().unwrap();
+                        let r = match &s {
+                            S::Vec(b) => guard(|| reload::<BV, BV>(b, mode, S::Vec)),
+                            S::Boxed(b) => guard(|| reload::<BB, BB>(b, mode, S::Boxed)),
+                            S::Eps(b) => guard(|| reload::<BR, BV>(b, mode, S::Vec)),
+                            S::Map(b, _) => guard(|| reload::<BR, BV>(&**b, mode, S::Vec)),
+                            _ => Ok(na()),
+                        };
+                        match r {
+                            Ok(Ok(n)) => {
+                                s = n;
+                                Ok(json!({}))
+                            }
+                            Ok(Err(m)) => Err(m),
+                            Err(m) => Err(m),
+                        }
+                    }
+                    // ------------------------------------------------ everything else by form
+                    _ => {
+                        let x = match &mut s {
+                            S::Vec(b) => match read_op(b, name, op) {
+                                Some(r) => Some(r),
+                                None => write_op(b, name, op, &|w, bw, l| unsafe { BV::from_raw_parts(w, bw, l) }),
+                            },
+                            S::Boxed(b) => match read_op(b, name, op) {
+                                Some(r) => Some(r),
+                                None => write_op(b, name, op, &|w, bw, l| unsafe {
+                                    BB::from_raw_parts(w.into_boxed_slice(), bw, l)
+                                }),
+                            },
+                            S::Eps(b) => read_op(b, name, op),
+                            S::Map(b, _) => read_op(&**b, name, op),
+                            S::AVec(a) => at::op_v(a, name, op),
+                            S::ABox(a) => at::op_b(a, name, op),
+                            S::None => None,
+                        };
+                        match x {
+                            Some(r) => r,
+                            None => {
+                                if !KNOWN_OPS.contains(&name) {
+                                    eprintln!("bitfield: unknown op {name}");
+                                    std::process::exit(2);
+                                }
+                                na()
+                            }
+                        }
+                    }
+                };
+                match r {
+                    Ok(f) => ctx.emit(op, "ret", merge(f, s.proj())),
+                    Err(m) if m == "na" => ctx.emit(op, "na", s.proj()),
+                    Err(m) => ctx.emit(op, "panic", merge(json!({"msg": m}), s.proj())),
+                }
+            }
+        }
+    };
+}
+
+const KNOWN_OPS: &[&str] = &[
+    "get", "get_unchecked", "len", "is_empty", "bit_width", "iter", "iter_from", "into_iter", "into_iter_from",
+    "iter_len", "slice_iter", "uiter", "ruiter", "eq_other", "eq_self", "addr_of", "get_unaligned", "mem_size",
+    "view_atomic_get", "set", "set_unchecked", "mask", "reset", "par_reset", "apply", "apply_unchecked",
+    "copy_to", "copy_from", "chunks", "view_atomic_set", "a_get", "a_get_unchecked", "a_set",
+    "a_set_unchecked", "a_reset", "a_par_reset", "a_reset_dep", "a_len", "a_bit_width", "a_mask", "a_all",
+];
+
+macro_rules! bf_family {
+    ($m:ident, $ty:ty, atomic $aty:ty, $macros:item) => {
+        pub mod $m {
+            use super::*;
+            pub type Wd = $ty;
+            pub mod at {
+                use super::super::*;
+                use super::{val, vj, Wd};
+                pub type A = $aty;
+                bf_atomic_real!();
+            }
+            $macros
+            bf_common!();
+        }
+    };
+    ($m:ident, $ty:ty, noatomic, $macros:item) => {
+        pub mod $m {
+            use super::*;
+            pub type Wd = $ty;
+            pub mod at {
+                use super::super::*;
+                use super::Wd;
+                bf_atomic_stub!();
+            }
+            $macros
+            bf_common!();
+        }
+    };
+}
+
+use std::sync::atomic::{AtomicU16, AtomicU32, AtomicU64, AtomicU8, AtomicUsize};
+
+bf_family!(w8, u8, atomic AtomicU8, fn macros(_op: &Value, _s: &mut S) -> Result<Value, String> { na() });
+bf_family!(w16, u16, atomic AtomicU16, fn macros(_op: &Value, _s: &mut S) -> Result<Value, String> { na() });
+bf_family!(w32, u32, atomic AtomicU32, fn macros(_op: &Value, _s: &mut S) -> Result<Value, String> { na() });
+bf_family!(w64, u64, atomic AtomicU64, fn macros(_op: &Value, _s: &mut S) -> Result<Value, String> { na() });
+bf_family!(w128, u128, noatomic, fn macros(_op: &Value, _s: &mut S) -> Result<Value, String> { na() });
+// the bit_field_vec! macro builds usize vectors only
+bf_family!(wsize, usize, atomic AtomicUsize, fn macros(op: &Value, s: &mut S) -> Result<Value, String> {
+    let w = get_usize(op, "width");
+    let r = match op["op"].as_str().unwrap() {
+        "macro_empty" => guard(|| sux::bit_field_vec![w]),
+        "macro_rep" => {
+            let (n, v) = (get_usize(op, "n"), val(&op["v"]));
+            if get_bool(op, "old") {
+                guard(|| sux::bit_field_vec![w; n; v])
+            } else {
+                guard(|| sux::bit_field_vec![w => v; n])
+            }
+        }
+        _ => {
+            let v = vals(&op["vals"]);
+            match v.len() {
+                1 => guard(|| sux::bit_field_vec![w; v[0]]),
+                2 => guard(|| sux::bit_field_vec![w; v[0], v[1]]),
+                3 => guard(|| sux::bit_field_vec![w; v[0], v[1], v[2]]),
+                _ => guard(|| sux::bit_field_vec![w; v[0], v[1], v[2], v[3],]),
+            }
+        }
+    };
+    set_vec(s, r)
+});
+
+pub fn run(ep: &Value, ctx: &mut Ctx) {
+    match ep["wt"].as_str().unwrap_or("usize") {
+        "u8" => w8::run(ep, ctx),
+        "u16" => w16::run(ep, ctx),
+        "u32" => w32::run(ep, ctx),
+        "u64" => w64::run(ep, ctx),
+        "u128" => w128::run(ep, ctx),
+        "usize" => wsize::run(ep, ctx),
+        t => {
+            eprintln!("bitfield: unknown word type {t}");
+            std::process::exit(2);
+        }
+    }
 }
